@@ -55,10 +55,81 @@ def codec_cases(rng, n):
         else:
             e = rng.randint(1, 2046)
             vals64.append((e << 52) | rng.choice([0, 1, (1 << 52) - 1]))
-    for b in vals64:
-        cs.append(Case(f"df64 {b:x}", prop=False, tags=("codec-display",)))
+    # conversions that the model implements on bit patterns (Model/FloatBits.lean): ties and boundaries
+    def d2b(x):
+        return struct.unpack("<Q", struct.pack("<d", x))[0]
+
+    def f2b(x):
+        return struct.unpack("<I", struct.pack("<f", x))[0]
+    cast64 = []
+    for _ in range(n):
+        k = rng.random()
+        sign = rng.getrandbits(1) << 63
+        if k < 0.25:      # exactly between two f32 values, and its neighbours (round half to even)
+            b32 = rng.getrandbits(31)
+            if (b32 >> 23) in (0, 255):
+                b32 = (rng.randint(1, 254) << 23) | (b32 & 0x7FFFFF)
+            e = (b32 >> 23) - 127 + 1023
+            mid = (e << 52) | ((b32 & 0x7FFFFF) << 29) | (1 << 28)
+            cast64 += [sign | mid, sign | (mid - 1), sign | (mid + 1)]
+        elif k < 0.4:     # the f32 subnormal range and the underflow boundary
+            e = rng.randint(1023 - 152, 1023 - 125)
+            cast64.append(sign | (e << 52) | rng.choice([0, 1, 1 << 51, (1 << 52) - 1, rng.getrandbits(52), rng.getrandbits(30) << 22]))
+        elif k < 0.5:     # the f32 overflow boundary
+            cast64.append(sign | ((1023 + rng.choice([126, 127, 128])) << 52) | rng.choice([0, (1 << 52) - 1, 0xFFFFFE0000000, 0xFFFFFEFFFFFFF, 0xFFFFFF0000000, rng.getrandbits(52)]))
+        elif k < 0.7:     # around integers (ceil, as i32), incl. +-2^31
+            v = rng.choice([0, 1, 2, 3, 1000, 131072, 2**24, 2**31 - 1, 2**31, 2**31 + 1, 2**32, 2**52, 2**53, 2**63, 2**64, rng.randint(0, 2**33)])
+            x = float(v)
+            b = d2b(x)
+            cast64 += [sign | b, sign | (b + 1), sign | max(b - 1, 0), sign | d2b(x + 0.5), sign | d2b(x + rng.random())]
+        elif k < 0.8:     # small fractions
+            cast64.append(sign | d2b(rng.random() * rng.choice([1.0, 1e-3, 1e-10, 1e-300])))
+        else:
+            cast64.append(rng.getrandbits(64))
+    cast32 = []
+    for _ in range(n):
+        k = rng.random()
+        sign = rng.getrandbits(1) << 31
+        if k < 0.3:
+            cast32.append(sign | rng.choice([rng.getrandbits(23), 1, 0x7FFFFF, 1 << rng.randint(0, 22)]))      # subnormals
+        elif k < 0.6:
+            v = rng.choice([0, 1, 2, 1000, 131072, 2**23, 2**24, 2**31, rng.randint(0, 2**25)])
+            b = f2b(float(v))
+            cast32 += [sign | b, sign | (b + 1), sign | max(b - 1, 0), sign | f2b(v + 0.5), sign | f2b(v + rng.random())]
+        else:
+            cast32.append(rng.getrandbits(32))
+    for b in vals64 + cast64:
         cs.append(Case(f"castf64i32 {b:x}", prop=False, tags=("codec-cast",)))
         cs.append(Case(f"castf64f32 {b:x}", prop=False, tags=("codec-cast",)))
+        cs.append(Case(f"ceilf64 {b:x}", prop=False, tags=("codec-cast",)))
+        cs.append(Case(f"usizef64 {b:x}", prop=False, tags=("codec-cast",)))
+    for b in cast32:
+        cs.append(Case(f"castf32f64 {b:x}", prop=False, tags=("codec-cast",)))
+        cs.append(Case(f"castf32i32 {b:x}", prop=False, tags=("codec-cast",)))
+        cs.append(Case(f"ceilf32 {b:x}", prop=False, tags=("codec-cast",)))
+    # the arithmetic itself (Lean 4.33 defines it through the logical model Float.Model and compiles it to C): operand pairs
+    pool64 = vals64[:12] + cast64[: max(8, n // 4)] + [d2b(x) for x in (0.1, 0.25, 0.5, 1.0, 2.0, 3.0, 100.0, 1e-5, 1e16, 6.0, 60000.0, 2.220446049250313e-16)]
+    pool32 = [0, 1 << 31, 1, 0x007FFFFF, 0x00800000, 0x7F7FFFFF, 0x7F800000, 0xFF800000, 0x7FC00000, 0x3F800000] + cast32[: max(8, n // 4)]
+    for _ in range(n):
+        op = rng.choice(["add", "sub", "mul", "div", "sqrt", "abs", "neg", "cmp", "minmax"])
+        a, b = rng.choice(pool64), rng.choice(pool64)
+        if rng.random() < 0.3:      # neighbours: cancellation, ties
+            b = (a + rng.choice([-2, -1, 0, 1, 2])) % (1 << 64)
+        if rng.random() < 0.15:
+            b = a ^ (1 << 63)
+        if op == "minmax" and a << 1 & (2**64 - 1) == 0 and b << 1 & (2**64 - 1) == 0:
+            op = "cmp"      # min/max of two zeros of different sign is not specified by Rust
+        cs.append(Case(f"fop64 {op} {a:x} {b:x}", prop=False, tags=("codec-arith",)))
+        a, b = rng.choice(pool32), rng.choice(pool32)
+        if rng.random() < 0.3:
+            b = (a + rng.choice([-2, -1, 0, 1, 2])) % (1 << 32)
+        if rng.random() < 0.15:
+            b = a ^ (1 << 31)
+        if op == "minmax" and a << 1 & (2**32 - 1) == 0 and b << 1 & (2**32 - 1) == 0:
+            op = "cmp"
+        cs.append(Case(f"fop32 {op} {a:x} {b:x}", prop=False, tags=("codec-arith",)))
+    for b in vals64:
+        cs.append(Case(f"df64 {b:x}", prop=False, tags=("codec-display",)))
     vals32 = [0, 1 << 31, 1, 0x007FFFFF, 0x00800000, 0x7F7FFFFF, 0x7F800000, 0xFF800000, 0x7FC00000, 0x3F800000, 0x4B800000]
     for _ in range(n):
         k = rng.random()
